@@ -207,9 +207,9 @@ fn inplace_forms(out: &mut Out, r: &mut Rng) {
     out.case(&format!("right_shift_uint {} {} 2", fl(&a2), s2), "u128", || { let mut res = vec![DIRTY; 2]; hu::right_shift_u128(&a2, s2, &mut res); fl(&res) });
     out.case(&format!("right_shift_uint {} {} 2", fl(&a2), s2), "u128", || { let mut x = a2.clone(); hu::right_shift_u128_inplace(&mut x, s2); fl(&x) });
     out.case(&format!("half_round_up_uint {} {}", fl(&a), n), &lc, || { let mut x = a.clone(); hu::half_round_up_uint_inplace(&mut x); fl(&x) });
-    // `multiply_uint_u64_inplace` (no caller in the library) clears its operand BEFORE reading it when it has two or more words: [1,0] * 3 -> [0,0]
-    // (defect candidate recorded in notes/work7-U.md); only the one-word path is exercised here so that the check stays green on the pinned tree
-    if n == 1 { out.case(&format!("multiply_uint_u64 {} {} {}", fl(&a), w, n), &lc, || { let mut x = a.clone(); hu::multiply_uint_u64_inplace(&mut x, w); fl(&x) }); }
+    // `multiply_uint_u64_inplace`: every operand length (the pinned tree cleared the operand before reading it for two or more words:
+    // [1,0] * 3 -> [0,0]; repaired by a `fix:` commit, see known_findings.json)
+    out.case(&format!("multiply_uint_u64 {} {} {}", fl(&a), w, n), &lc, || { let mut x = a.clone(); hu::multiply_uint_u64_inplace(&mut x, w); fl(&x) });
     // division in place: the numerator becomes the remainder, the quotient buffer is dirty
     let dn = r.range(1, n as u64) as usize;
     let mut d = limbs(r, dn); if d.iter().all(|&x| x == 0) { d[0] = 1 + r.below(1000); }
@@ -217,10 +217,9 @@ fn inplace_forms(out: &mut Out, r: &mut Rng) {
     out.case(&format!("divide_uint {} {} {}", fl(&a), fl(&d), n), &format!("inplace-div{}by{}", n, dn), || { let mut num = a.clone(); let mut q = vec![DIRTY; n]; hu::divide_uint_inplace(&mut num, &d, &mut q); format!("{}/{}", fl(&num), fl(&q)) });
     // fixed-width divisions by one word: numerators of every significant length, divisors of every bit length
     let dw = match r.below(5) { 0 => 1, 1 => u64::MAX, 2 => 1u64 << r.below(64), _ => { let b = r.range(1, 64) as u32; r.bits(b).max(1) } };
-    // numerators of one or three significant words only: with exactly TWO significant words `divide_u192_u64_inplace` sizes its temporaries
-    // by the significant length (2) and then shifts them as 192-bit values -> index out of bounds (witness [1,1,0] / 12012631411972; recorded in
-    // notes/work7-U.md as a defect candidate, same slip as SEAL's divide_uint192_inplace; its only caller, Modulus::set_value, passes 2^128)
-    let mut n3 = limbs(r, 3); if r.chance(1, 3) { n3[1] = 0; n3[2] = 0; } else if n3[2] == 0 { n3[2] = 1 + r.below(3); }
+    // numerators of one, TWO and three significant words (with exactly two the pinned tree indexed out of bounds: witness [1,1,0] / 12012631411972;
+    // repaired by a `fix:` commit, see known_findings.json)
+    let mut n3 = limbs(r, 3); match r.below(3) { 0 => { n3[1] = 0; n3[2] = 0; } 1 => { n3[2] = 0; if n3[1] == 0 { n3[1] = 1 + r.below(3); } } _ => { if n3[2] == 0 { n3[2] = 1 + r.below(3); } } }
     out.case(&format!("divide_uint {} {},0,0 3", fl(&n3), dw), "u192-div", || { let mut num = n3.clone(); let mut q = vec![DIRTY; 3]; hu::divide_u192_u64_inplace(&mut num, dw, &mut q); format!("{}/{}", fl(&num), fl(&q)) });
     let mut n2 = limbs(r, 2); if r.chance(1, 3) { n2[1] = 0; }
     out.case(&format!("divide_uint {} {},0 2", fl(&n2), dw), "u128-div", || { let mut num = n2.clone(); let mut q = vec![DIRTY; 2]; hu::divide_u128_u64_inplace(&mut num, dw, &mut q); format!("{}/{}", fl(&num), fl(&q)) });
